@@ -17,13 +17,24 @@ var cronParser = cron.NewParser(
 	cron.Minute | cron.Hour | cron.Dom | cron.Month | cron.Dow,
 )
 
+// parseCron parses a cron expression. A time zone prefix (TZ=..., CRON_TZ=...)
+// that is not followed by an expression is rejected here: the cron parser
+// slices the spec at the first blank without checking that there is one.
+func parseCron(spec string) (cron.Schedule, error) {
+	if (strings.HasPrefix(spec, "TZ=") || strings.HasPrefix(spec, "CRON_TZ=")) &&
+		!strings.Contains(spec, " ") {
+		return nil, fmt.Errorf("time zone without a cron expression: %q", spec)
+	}
+	return cronParser.Parse(spec)
+}
+
 // parseSchedules parses the schedule values and returns a list of schedules.
 // each schedule is parsed as a cron expression.
 func parseSchedules(values []string) ([]Schedule, error) {
 	var ret []Schedule
 
 	for _, v := range values {
-		parsed, err := cronParser.Parse(v)
+		parsed, err := parseCron(v)
 		if err != nil {
 			return nil, fmt.Errorf("%w: %s", errInvalidSchedule, err)
 		}
@@ -98,7 +109,7 @@ func parseScheduleMap(
 		}
 
 		for _, v := range values {
-			if _, err := cronParser.Parse(v); err != nil {
+			if _, err := parseCron(v); err != nil {
 				return fmt.Errorf("%w: %s", errInvalidSchedule, err)
 			}
 			*targets = append(*targets, v)
